@@ -12,6 +12,8 @@ func ChoiceFragments() map[string]*Fragment {
 	fs := []*Fragment{
 		{Name: "ca1", Leaves: []Leaf{leaf("A1", "mode", "a")}},
 		{Name: "ca2", Leaves: []Leaf{leaf("A2", "mode", "a"), leaf("AB", "mode", "ab")}},
+		{Name: "cab", Leaves: []Leaf{leaf("AB2", "mode", "ab")}},
+		{Name: "cpc", Leaves: []Leaf{leafEmpty("mode", "pc")}},
 		{Name: "cb1", Leaves: []Leaf{leaf("B1", "mode", "b")}},
 		{Name: "cbx", Leaves: []Leaf{leaf("B2", "mode", "b"), leaf("X1", "mode", "x")}},
 		{Name: "cby", Leaves: []Leaf{leaf("Y1", "mode", "y")}},
@@ -28,7 +30,7 @@ func ChoiceFragments() map[string]*Fragment {
 	return m
 }
 
-var ChoiceFragOrder = []string{"ca1", "ca2", "cb1", "cbx", "cby", "cnon", "ie", "il", "inon", "il10"}
+var ChoiceFragOrder = []string{"ca1", "ca2", "cab", "cpc", "cb1", "cbx", "cby", "cnon", "ie", "il", "inon", "il10"}
 
 func choiceFrags() (map[string]*Fragment, []string) {
 	return ChoiceFragments(), ChoiceFragOrder
@@ -70,6 +72,8 @@ func choiceSlots(canon string) []choiceSlot {
 			r = append(r, choiceSlot{"/mode", "top", "a"})
 		case "b":
 			r = append(r, choiceSlot{"/mode", "top", "b"})
+		case "pc":
+			r = append(r, choiceSlot{"/mode", "top", "c"})
 		case "x", "y":
 			r = append(r, choiceSlot{"/mode", "top", "b"}, choiceSlot{"/mode", "nested", m})
 		}
@@ -148,7 +152,21 @@ func (C08Checker) Check(s *Step) []*Violation {
 				vs = append(vs, &Violation{Clause: "case-node-without-contribution", Sig: "case-node-without-contribution:" + tag(sl, w) + ":" + SchemaClass(p),
 					Detail: fmt.Sprintf("device carries %s=%s (case %s of choice %s) although no live intent contributes to that choice; live=%s", p, dev[p], sl.cas, sl.key(), m.Key())})
 			case w.cas != sl.cas:
-				vs = append(vs, &Violation{Clause: "losing-case-present", Sig: "losing-case-present:" + tag(sl, w) + ":" + SchemaClass(p),
+				t := tag(sl, w)
+			REQ:
+				for _, is := range s.Op.Intents {
+					if old := s.ModelPre.Live[is.Owner]; old != nil {
+						for q := range old.Defined {
+							for _, qs := range choiceSlots(q) {
+								if qs.key() == sl.key() && qs.cas == sl.cas {
+									t += ":requester-was-in-losing-case"
+									break REQ
+								}
+							}
+						}
+					}
+				}
+				vs = append(vs, &Violation{Clause: "losing-case-present", Sig: "losing-case-present:" + t + ":" + SchemaClass(p),
 					Detail: fmt.Sprintf("device carries %s=%s of case %s, but the highest-precedence contribution to choice %s is in case %s (priority %d); live=%s", p, dev[p], sl.cas, sl.key(), w.cas, w.prio, m.Key())})
 			}
 		}
@@ -180,6 +198,9 @@ func (C08Checker) Check(s *Step) []*Violation {
 				names = append(names, tag(sl, winners[sl.key()]))
 			}
 			sort.Strings(names)
+			if _, ro, _ := m.Ruling(p); ro != "" && !named[ro] {
+				names = append(names, "value-owner-not-in-request")
+			}
 			vs = append(vs, &Violation{Clause: "winning-case-value", Sig: "winning-case-value:" + strings.Join(names, "+") + ":" + SchemaClass(p),
 				Detail: fmt.Sprintf("device has %s=%s, expected %q: it belongs to the winning case; live=%s", p, g, exp[p], m.Key())})
 		}
